@@ -179,7 +179,7 @@ func (L *Loader) verifyFuncAuto(fn *ssa.Function, spec *FuncSpec, disabled map[s
 	if spec != nil && spec.NoEscape {
 		e.recoverFrame(fn)
 	}
-	if spec == nil || !spec.NoEscape || len(spec.Checks) > 0 || len(spec.Ensures) > 0 {
+	if spec == nil || !spec.NoEscape || len(spec.Checks) > 0 || len(spec.Ensures) > 0 || len(spec.CallPre) > 0 {
 		e.runBody(fn, args, binds, st, "true", 0, "")
 	}
 	res.Obls = e.obls
@@ -187,6 +187,13 @@ func (L *Loader) verifyFuncAuto(fn *ssa.Function, spec *FuncSpec, disabled map[s
 		o.Script = e.lines
 		if o.Inputs == nil {
 			o.Inputs = e.inputs
+		}
+	}
+	seenMV := map[string]bool{}
+	for _, o := range e.missingVariants {
+		if !seenMV[o.ID] {
+			seenMV[o.ID] = true
+			res.Obls = append(res.Obls, o)
 		}
 	}
 	for f := range e.flags {
